@@ -1,4 +1,4 @@
--- GENERATED from /repo by checks/ on every run. Do not edit.
+-- GENERATED from /tmp/wt_s2x by checks/ on every run. Do not edit.
 import TbbVerif.Core.Cint
 import TbbVerif.Model.C02
 namespace TbbVerif.Generated.C02
@@ -12,5 +12,7 @@ def ordersX86 : Orders := ⟨prepFence, unlockRmw, notifyFence, chgRmw, true⟩
 def ordersPortable : Orders := ⟨prepFence, unlockRmw, notifyFence, chgRmw, false⟩
 def enqueueFence : Bool := true
 def sites : List (String × String × String × String) := [("notifier", "fence", "-", "sc"), ("notifier", "fwake", "sem", "sc"), ("notifier", "load", "count", "rlx"), ("notifier", "load", "epoch", "rlx"), ("notifier", "load", "mwait", "rlx"), ("notifier", "store", "cond", "rlx"), ("notifier", "store", "count", "rlx"), ("notifier", "store", "epoch", "rlx"), ("notifier", "store", "inl", "rlx"), ("notifier", "xchg", "mflag", "sc"), ("notifier", "xchg", "sem", "sc"), ("sleeper", "cas", "sem", "sc"), ("sleeper", "fence", "-", "sc"), ("sleeper", "fwait", "sem", "sc"), ("sleeper", "load", "cond", "rlx"), ("sleeper", "load", "count", "rlx"), ("sleeper", "load", "epoch", "rlx"), ("sleeper", "load", "mwait", "rlx"), ("sleeper", "store", "count", "rlx"), ("sleeper", "store", "inl", "rlx"), ("sleeper", "store", "sem", "sc"), ("sleeper", "xchg", "mflag", "sc"), ("sleeper", "xchg", "sem", "sc")]
+open TbbVerif.C02 in
+def scanObs : List (List Nat × NKind × List Nat) := [([1, 2, 1], .onec 1, [2]), ([1, 2, 1], .ctx 1, [2, 0]), ([1, 2, 3], .onec 1, [0]), ([1, 2, 3], .onec 2, [1]), ([1, 2, 3], .onec 3, [2]), ([1, 2, 3], .onec 9, []), ([1, 2, 3], .ctx 1, [0]), ([1, 2, 3], .ctx 3, [2]), ([2, 1, 1], .onec 1, [2]), ([1, 1, 2], .onec 1, [1]), ([1, 1, 2], .ctx 1, [1, 0]), ([1, 2, 3], .one, [0]), ([1, 2], .all, [0, 1]), ([2, 1], .abort, [0, 1]), ([1, 2], .ctx 7, [])]
 
 end TbbVerif.Generated.C02
